@@ -198,6 +198,8 @@ class ConnectModel:
         if isinstance(v, Elem):
             # a itself is the pair
             return mkpair(fst(v.i), snd(v.i))
+        if isinstance(v, tuple) and len(v) == 2 and all(is_z3(x) and x.sort() == Attr for x in v):
+            return mkpair(v[0], v[1])
         raise Unsupported("normalised attribute pair of unknown shape")
 
     def merge(self, it, c, a, b):
@@ -205,6 +207,12 @@ class ConnectModel:
             return z3.If(c, self.as_pair(a), self.as_pair(b))
         except Unsupported:
             return NotImplemented
+
+    def getitem(self, it, obj, idx, node):
+        if isinstance(obj, Elem) and idx in (0, 1):
+            # (element used as a pair)
+            return fst(obj.i) if idx == 0 else snd(obj.i)
+        return NotImplemented
 
     def isinstance(self, it, v, cls, node):
         if isinstance(v, Elem) and isinstance(cls, Builtin) and cls.name == "str":
